@@ -47,6 +47,11 @@ type evMode struct {
 }
 
 type caseSpec struct {
+	// Mixed: the engine listens on udp4 and udp6 (Rotate); sender i uses the family i%2 decides
+	Mixed bool
+	// ScratchAddr: SendTo is always given one and the same *net.UDPAddr object, re-filled before each call
+	// with one of two collector addresses (a fan-out loop re-using its address variable)
+	ScratchAddr bool
 	// Raw: the handler answers every datagram with exactly the bytes it peeked (zero copy, possibly none
 	// at all) before consuming them; replies are matched by content instead of by a reply header.
 	Raw     bool
@@ -58,7 +63,7 @@ type caseSpec struct {
 }
 
 func (c caseSpec) String() string {
-	return fmt.Sprintf("%s loops=%d rcap=%d raw=%v senders=%v modes=%+v", c.Net, c.Loops, c.ReadCap, c.Raw, c.Senders, c.Modes)
+	return fmt.Sprintf("%s loops=%d rcap=%d raw=%v mixedFamilies=%v scratchSendToAddr=%v senders=%v modes=%+v", c.Net, c.Loops, c.ReadCap, c.Raw, c.Mixed, c.ScratchAddr, c.Senders, c.Modes)
 }
 
 type server struct {
@@ -73,6 +78,10 @@ type server struct {
 	nev             int
 	collector       net.Addr
 	collector16     net.Addr
+	collector2      *net.UDPAddr // second SendTo target (scratch-address cases)
+	scratch         *net.UDPAddr // the one address object handed to every SendTo in scratch-address cases
+	sentTo2         map[[2]int][]byte
+	nsend           int
 	partial         bool // an event consumed only part/none and another event followed on the same loop
 	lastLoopPartial map[gnet.EventLoop]bool
 }
@@ -178,13 +187,27 @@ func (s *server) OnTraffic(c gnet.Conn) gnet.Action {
 	if w, err := c.Write(reply); err != nil || w != len(reply) {
 		s.failf("udp-write", "Write of a %d-byte reply returned (%d, %v)", len(reply), w, err)
 	}
-	if m.SendTo {
-		to := s.collector
+	if m.SendTo && !s.cs.Mixed {
+		var to net.Addr = s.collector
 		if m.To16 {
 			to = s.collector16
 		}
+		second := false
+		if s.cs.ScratchAddr {
+			// the same address object every time, re-filled with this call's destination
+			dst := s.collector.(*net.UDPAddr)
+			if s.nsend%2 == 1 {
+				dst, second = s.collector2, true
+			}
+			s.nsend++
+			s.scratch.IP = append(s.scratch.IP[:0], dst.IP...)
+			s.scratch.Port = dst.Port
+			to = s.scratch
+		}
 		if w, err := c.SendTo(reply, to); err != nil || w != len(reply) {
 			s.failf("udp-sendto", "SendTo(%d bytes, %v) returned (%d, %v)", len(reply), to, w, err)
+		} else if second {
+			s.sentTo2[[2]int{sender, seq}] = append([]byte(nil), reply...)
 		} else {
 			s.sentTo[[2]int{sender, seq}] = append([]byte(nil), reply...)
 		}
@@ -204,9 +227,19 @@ func ack(sender, seq, bodyLen int) []byte {
 const ackLen = 12
 
 func runCase(cs caseSpec) (fails []string, infra string, s *server) {
-	s = &server{cs: cs, addrOf: map[string]int{}, nextSmall: map[int]int{}, smallSeqs: map[int][]int{}, seen: map[[2]int]int{}, sentTo: map[[2]int][]byte{}, lastLoopPartial: map[gnet.EventLoop]bool{}}
+	s = &server{cs: cs, addrOf: map[string]int{}, nextSmall: map[int]int{}, smallSeqs: map[int][]int{}, seen: map[[2]int]int{}, sentTo: map[[2]int][]byte{}, sentTo2: map[[2]int][]byte{}, scratch: &net.UDPAddr{}, lastLoopPartial: map[gnet.EventLoop]bool{}}
 	host := fx.Host(cs.Net)
 	ip := net.ParseIP(strings.Trim(host, "[]"))
+	other := "udp6"
+	if cs.Net == "udp6" {
+		other = "udp4"
+	}
+	famOf := func(i int) string {
+		if cs.Mixed && i%2 == 1 {
+			return other
+		}
+		return cs.Net
+	}
 	// sender sockets and the collector are bound before the engine starts
 	type snd struct {
 		c     *net.UDPConn
@@ -214,7 +247,7 @@ func runCase(cs caseSpec) (fails []string, infra string, s *server) {
 	}
 	var snds []*snd
 	for i, sizes := range cs.Senders {
-		c, err := net.ListenUDP(cs.Net, &net.UDPAddr{IP: ip})
+		c, err := net.ListenUDP(famOf(i), &net.UDPAddr{IP: net.ParseIP(strings.Trim(fx.Host(famOf(i)), "[]"))})
 		if err != nil {
 			return nil, "sender socket: " + err.Error(), s
 		}
@@ -240,7 +273,20 @@ func runCase(cs caseSpec) (fails []string, infra string, s *server) {
 	if ip4 := ca.IP.To4(); ip4 != nil {
 		s.collector = &net.UDPAddr{IP: ip4, Port: ca.Port}
 	}
+	col2, err := net.ListenUDP(cs.Net, &net.UDPAddr{IP: ip})
+	if err != nil {
+		return nil, "collector socket: " + err.Error(), s
+	}
+	defer col2.Close()
+	ca2 := col2.LocalAddr().(*net.UDPAddr)
+	s.collector2 = &net.UDPAddr{IP: ca2.IP, Port: ca2.Port}
+	if ip4 := ca2.IP.To4(); ip4 != nil {
+		s.collector2.IP = ip4
+	}
 	cfg := fx.Cfg{Net: cs.Net, Loops: cs.Loops, ReadCap: cs.ReadCap, WriteCap: 1024, RcvBuf: 4 << 20, SndBuf: 4 << 20}
+	if cs.Mixed {
+		cfg.ExtraNets = []string{other}
+	}
 	e, err := fx.Start(cfg, fx.EngineHooks{Unbound: func(gnet.Conn) fx.ConnHooks { return s }})
 	if err != nil {
 		return nil, err.Error(), s
@@ -253,18 +299,30 @@ func runCase(cs caseSpec) (fails []string, infra string, s *server) {
 			fails = append(fails, "VERIF-KEY:panic-logged "+p)
 		}
 	}()
-	raddr, err := net.ResolveUDPAddr(cs.Net, e.Addr)
+	raddr0, err := net.ResolveUDPAddr(cs.Net, e.Addr)
 	if err != nil {
 		return nil, "resolve: " + err.Error(), s
+	}
+	raddrOther := raddr0
+	if cs.Mixed {
+		if raddrOther, err = net.ResolveUDPAddr(other, e.Addrs[len(e.Addrs)-1]); err != nil {
+			return nil, "resolve: " + err.Error(), s
+		}
+	}
+	raddrOf := func(i int) *net.UDPAddr {
+		if famOf(i) == cs.Net {
+			return raddr0
+		}
+		return raddrOther
 	}
 	// collector: counts what SendTo delivered
 	var colMu sync.Mutex
 	colGot := map[[2]int][]byte{}
+	colGot2 := map[[2]int][]byte{}
 	colExtra := 0
 	colStop := make(chan struct{})
 	var colWG sync.WaitGroup
-	colWG.Add(1)
-	go func() {
+	collect := func(col *net.UDPConn, colGot map[[2]int][]byte) {
 		defer colWG.Done()
 		buf := make([]byte, 70000)
 		for {
@@ -290,7 +348,10 @@ func runCase(cs caseSpec) (fails []string, infra string, s *server) {
 			}
 			colMu.Unlock()
 		}
-	}()
+	}
+	colWG.Add(2)
+	go collect(col, colGot)
+	go collect(col2, colGot2)
 	var inflight int64 // bytes in flight over all senders (keeps the kernel from dropping)
 	var wg sync.WaitGroup
 	var fmu sync.Mutex
@@ -314,7 +375,7 @@ func runCase(cs caseSpec) (fails []string, infra string, s *server) {
 				if err != nil {
 					return false
 				}
-				if from.Port != raddr.Port {
+				if raddr := raddrOf(i); from.Port != raddr.Port {
 					add("VERIF-KEY:udp-reply-from sender %d: a reply came from %v, not from the listener %v", i, from, raddr)
 				}
 				if cs.Raw {
@@ -386,7 +447,7 @@ func runCase(cs caseSpec) (fails []string, infra string, s *server) {
 				}
 				pending[seq] = true
 				atomic.AddInt64(&inflight, int64(n+64))
-				if _, err := sd.c.WriteToUDP(dgram(i, seq, n), raddr); err != nil {
+				if _, err := sd.c.WriteToUDP(dgram(i, seq, n), raddrOf(i)); err != nil {
 					add("VERIF-INFRA sender %d: send of %d bytes failed: %v", i, n, err)
 					return
 				}
@@ -427,19 +488,23 @@ func runCase(cs caseSpec) (fails []string, infra string, s *server) {
 	}
 	fails = append(fails, s.fails...)
 	colMu.Lock()
-	for k, want := range s.sentTo {
-		if got, ok := colGot[k]; !ok {
-			fails = append(fails, fmt.Sprintf("VERIF-KEY:udp-sendto-lost SendTo for datagram %d.%d (%d bytes) never reached the given address", k[0], k[1], len(want)))
-			break
-		} else if !bytes.Equal(got, want) {
-			fails = append(fails, fmt.Sprintf("VERIF-KEY:udp-sendto-payload the given address received %d bytes for datagram %d.%d, SendTo was given %d other bytes", len(got), k[0], k[1], len(want)))
-			break
+	for ci, pair := range []struct {
+		sent, got map[[2]int][]byte
+	}{{s.sentTo, colGot}, {s.sentTo2, colGot2}} {
+		for k, want := range pair.sent {
+			if got, ok := pair.got[k]; !ok {
+				fails = append(fails, fmt.Sprintf("VERIF-KEY:udp-sendto-lost SendTo for datagram %d.%d (%d bytes) never reached the given address (target socket %d)", k[0], k[1], len(want), ci))
+				break
+			} else if !bytes.Equal(got, want) {
+				fails = append(fails, fmt.Sprintf("VERIF-KEY:udp-sendto-payload the given address received %d bytes for datagram %d.%d, SendTo was given %d other bytes", len(got), k[0], k[1], len(want)))
+				break
+			}
 		}
-	}
-	for k := range colGot {
-		if _, ok := s.sentTo[k]; !ok {
-			fails = append(fails, fmt.Sprintf("VERIF-KEY:udp-sendto-surplus the third socket received a datagram for %d.%d that nobody sent to it", k[0], k[1]))
-			break
+		for k := range pair.got {
+			if _, ok := pair.sent[k]; !ok {
+				fails = append(fails, fmt.Sprintf("VERIF-KEY:udp-sendto-surplus target socket %d received a datagram for %d.%d that nobody sent to it", ci, k[0], k[1]))
+				break
+			}
 		}
 	}
 	colMu.Unlock()
@@ -496,6 +561,10 @@ func drawCase(t *rapid.T) caseSpec {
 		})
 	}
 	cs.Raw = rapid.IntRange(0, 2).Draw(t, "raw") == 0
+	if fx.HasIPv6 {
+		cs.Mixed = rapid.IntRange(0, 3).Draw(t, "mixedFamilies") == 0
+	}
+	cs.ScratchAddr = rapid.IntRange(0, 2).Draw(t, "scratchAddr") == 0
 	return cs
 }
 
@@ -525,6 +594,12 @@ func TestC08Datagrams(t *testing.T) {
 		}
 		if cs.Net == "udp6" {
 			st.Label("ipv6")
+		}
+		if cs.Mixed {
+			st.Label("listeners_of_both_families")
+		}
+		if cs.ScratchAddr && !cs.Mixed {
+			st.Label("sendto_address_object_reused")
 		}
 		if cs.Raw {
 			st.Label("raw_zero_copy_replies")
